@@ -29,34 +29,43 @@ PADS = {
 
 def relax_models(rep: Report, tier: str, wd):
     graphs = {1: [], 2: []}
-    jobs = [(nb, pads, scale) for nb, pads in PADS[tier].items() for scale in (1, 2)]
+    jobs = [(nb, pads, scale, "grid") for nb, pads in PADS[tier].items() for scale in (1, 2)]
+    # chains of dependent growths: K jumps, one more pass of the loop per jump (K + 1 passes)
+    maxk = 6 if tier == "quick" else 9
+    jobs.append((maxk, "{" + ", ".join(map(str, range(110, 129))) + "}", 1, "cascade"))
+    jobs.append((maxk, "{" + ", ".join(map(str, range(238, 258))) + "}", 2, "cascade"))
 
     def mc(job):
-        nb, pads, scale = job
-        cfg = wd / f"MC_Relax_{nb}_{scale}.cfg"
-        cfg.write_text(f"SPECIFICATION Spec\nCONSTANTS\n  NB = {nb}\n  Pads = {pads}\n  Scale = {scale}\n  Emit = TRUE\n"
+        nb, pads, scale, fam = job
+        cfg = wd / f"MC_Relax_{fam}_{nb}_{scale}.cfg"
+        cfg.write_text(f"SPECIFICATION Spec\nCONSTANTS\n  NB = {nb}\n  Pads = {pads}\n  Scale = {scale}\n  Family = \"{fam}\"\n"
+                       f"  MaxK = {nb}\n  Emit = TRUE\n"
                        "INVARIANT PassBound\nINVARIANT JumpsLand\nINVARIANT EmitDone\nPROPERTY Terminates\nPROPERTY SizesGrow\n")
         return job, run_tlc("MC_Relax", str(cfg), workers=max(2, NCPU // len(jobs)), timeout=3000, heap="8g")
 
     with ThreadPoolExecutor(max_workers=len(jobs)) as ex:
-        for (nb, pads, scale), r in ex.map(mc, jobs):
-            rep.add_tlc(r, f"MC_Relax[blocks={nb},pads={pads},scale={scale}] (+liveness)")
+        for (nb, pads, scale, fam), r in ex.map(mc, jobs):
+            rep.add_tlc(r, f"MC_Relax[{fam},{'blocks' if fam == 'grid' else 'maxK'}={nb},pads={pads},scale={scale}] (+liveness)")
             if r.violated:
-                rep.machinery_error(f"MC_Relax[{nb},{scale}] property violated on the reference encoder: {r.violated[:3]}")
+                rep.machinery_error(f"MC_Relax[{fam},{nb},{scale}] property violated on the reference encoder: {r.violated[:3]}")
             n = 0
             for s in tlc_prints(r.out):
                 pads_, jumps, passes, final = json.loads(tla_unescape(s))
                 n += 1
-                graphs[scale].append({"id": f"g:{nb}:{scale}:{n}", "pads": pads_, "jumps": jumps, "passes": passes,
+                graphs[scale].append({"id": f"g:{fam[0]}{nb}:{scale}:{n}", "pads": pads_, "jumps": jumps, "passes": passes,
                                       "jumpargs": [x[0] for x in final]})
-            rep.cov.setdefault("model_graphs", {})[f"blocks={nb},scale={scale}"] = n
+            rep.cov.setdefault("model_graphs", {})[f"{fam},{nb},scale={scale}"] = n
             if n == 0:
-                rep.machinery_error(f"MC_Relax[{nb},{scale}] emitted nothing: {r.out[-500:]}")
+                rep.machinery_error(f"MC_Relax[{fam},{nb},{scale}] emitted nothing: {r.out[-500:]}")
     return graphs
 
 
 def nontrivial(g):
     return g["passes"] > 1 or any(a > 255 for a in g["jumpargs"])
+
+
+def deep(g):
+    return g["passes"] > 3
 
 
 def run(tier: str, rep: Report):
@@ -82,7 +91,9 @@ def run(tier: str, rep: Report):
             gs = graphs[2 if v == "310" else 1]
             interesting = [g for g in gs if nontrivial(g)]
             rest = [g for g in gs if not nontrivial(g)]
-            pick = interesting if len(interesting) <= limit else rnd.sample(interesting, limit)
+            deepg = [g for g in interesting if deep(g)]
+            interesting = [g for g in interesting if not deep(g)]
+            pick = deepg + (interesting if len(interesting) <= limit else rnd.sample(interesting, limit))
             pick = pick + rnd.sample(rest, min(len(rest), max(200, limit // 10)))
             nrep += len(pick)
             for ch in chunks(pick, 250):
@@ -138,7 +149,8 @@ def run(tier: str, rep: Report):
     rep.cov["explanation"] = ("MC_Relax exhaustive over all graphs of " +
                               "; ".join(f"{nb} blocks with paddings {p}" for nb, p in PADS[tier].items()) +
                               ", one optional jump per block (absolute to any block / relative to a later block), both "
-                              "operand scalings, with liveness; replayed graphs: every non-trivial one up to "
+                              "operand scalings, with liveness; plus the cascade family (K chained jumps, K + 1 passes) for K up to "
+                              f"{6 if tier == 'quick' else 9} over a window of paddings around the one-byte boundary; replayed graphs: every non-trivial one up to "
                               f"{limit} per interpreter (seeded sample beyond) + a sample of trivial ones")
     for sc in (1, 2):
         nt = [g for g in graphs[sc] if nontrivial(g)]
